@@ -20,10 +20,18 @@ def provoked_case(seed, k):
     names = universe.opt_names()
     opt = names[k % len(names)]
     cfg, klass = universe.make_config(rng, opt)
-    spec = universe.make_spec(rng, kind="multiobjective")
-    spec["weights"] = spec["weights"] + [0.5] if rng.random() < 0.5 else spec["weights"][:-1] or [1.0, 1.0, 1.0, 1.0]
-    if len(spec["weights"]) == len(spec["obj"]):
-        spec["weights"] = spec["weights"] + [1.0]
+    if k % 3 == 2:
+        # EarlyStopping(patience=None) / (min_delta=None) pass the model's validators but make the stop rule raise
+        # TypeError after the first cycle: an exception path in the middle of a run
+        spec = universe.make_spec(rng, kind=rng.choice(["continuous", "mixed"]))
+        cfg["early_stopping"] = rng.choice([{"patience": None, "min_delta": 1e-3}, {"patience": 2, "min_delta": None},
+                                            {"patience": None, "min_delta": None}])
+        cfg["max_cycles"] = max(2, cfg["max_cycles"])
+    else:
+        spec = universe.make_spec(rng, kind="multiobjective")
+        spec["weights"] = spec["weights"] + [0.5] if rng.random() < 0.5 else spec["weights"][:-1] or [1.0, 1.0, 1.0, 1.0]
+        if len(spec["weights"]) == len(spec["obj"]):
+            spec["weights"] = spec["weights"] + [1.0]
     return {"i": f"p{k}", "opt": opt, "cfg": cfg, "cfg_class": klass, "spec": spec, "mode": rng.choice(["serial", "serial", "thread"]),
             "workers": 2}
 
@@ -76,7 +84,7 @@ def check(prop, tier, seed):
     rep = Report(prop, tier, seed)
     n = common.tier_n(tier)
     items = common.choose_items(prop, tier, seed, n, mode_fraction=0.15)
-    n_prov = 84 * (2 if tier == "quick" else 10)
+    n_prov = 84 * (3 if tier == "quick" else 12)
     items += [provoked_case(seed, k) for k in range(n_prov)]
     pairs = common.run_campaign(rep, items)
     counters, opts_seen = common.collect(rep, prop, pairs, lambda o: o["outcome"] in ("ok", "exception") and o["stats"].get("c09_fields_compared", 0) > 0)
